@@ -44,7 +44,9 @@ class C18(Prop):
         for modname, cap in (("c05", 3000), ("c15", 3000), ("c11", 3000), ("c06", 3000), ("c20", 2000)):
             try:
                 mod = importlib.import_module(f"vlib.props.{modname}")
-                cs = [c for c in mod.PROP.cases("quick", seed) if c.flavor in TWIN]
+                # suites that exist for the thread-safe flavour only (lock traces, preemption injection) have no twin
+                cs = [c for c in mod.PROP.cases("quick", seed)
+                      if c.flavor in TWIN and c.suite not in ("inject", "locks", "behaviorrace", "coop")]
                 rng.shuffle(cs)
                 for c in cs[: cap if tier == "quick" else cap * 5]:
                     d = c.copy()
